@@ -10,8 +10,10 @@ All theorems quantify over every string of UTF-16 units (unbounded) and every tr
 import XV.Lemmas.FormatterInst
 import XV.Lemmas.Cdata
 import XV.Lemmas.Serializer
+import XV.Lemmas.NsFixup
 namespace XV.Props.C12
 open XV.Model.Formatter XV.Model.Cdata XV.Gen.Escapes XV.Gen.ByteTables
+open XV.Spec.Escaping
 open XV.Spec.Unescape (parseText parseAttr legalUnits readChars)
 open XV.Lemmas.Formatter XV.Lemmas.Cdata
 
@@ -368,6 +370,41 @@ theorem serializer_emits_illformed :
   decide
 
 end Tree
+
+/-! ### namespace fix-up (XV.Model.NsFixup; trees built through the API, no explicit xmlns attributes) -/
+section Ns
+open XV.Spec.Namespaces XV.Model.NsFixup XV.Lemmas.NsFixup
+
+/-- **innermost binding wins**: `isNamespaceBindingActive(prefix, uri)` answers exactly "the prefix, resolved as
+Namespaces in XML prescribes (innermost declaration first), denotes `uri`" — a binding of the prefix to `uri`
+further out that is shadowed by a nearer declaration is NOT active. -/
+theorem nsfixup_innermost_wins (stack : List Scope) (p u : Name) :
+    isNamespaceBindingActive stack p u = (resolve stack p == some u) := active_iff stack p u
+
+/-- **nsfixup_binds_all** (per element, for every enclosing scope stack — hence for every nesting depth and every
+shadowing pattern): after the fix-up of an element whose own prefix uses do not contradict each other, its prefix
+and the prefix of each of its prefixed attributes resolve to the namespace the node was built with. -/
+theorem nsfixup_binds_all (stack : List Scope) (uses : List Use) (hc : Consistent uses) :
+    ∀ x ∈ uses, resolve ((fixup stack uses).scope :: stack) x.1 = some x.2 := by
+  have := foldl_inv stack uses [] ⟨[], []⟩ (by simpa using hc) (by simp)
+  simpa [fixup] using this
+
+/-- nothing is declared that is already in force -/
+theorem nsfixup_no_redundant_declaration (stack : List Scope) (p u : Name) (h : resolve stack p = some u) :
+    (fixup stack [(p, u)]).emitted = [] := by
+  have : isNamespaceBindingActive ([] :: stack) p u = true := by
+    rw [active_iff]; simp [resolve, scopeGet, h]
+  simp [fixup, step, this]
+
+-- non-vacuity: prefix p bound U1 > U2 > U1 — the innermost element must (and does) re-declare it
+example : isNamespaceBindingActive [[([112], [50])], [([112], [49])]] [112] [49] = false := by decide
+example : (fixup [[([112], [50])], [([112], [49])]] [([112], [49]), ([113], [49])]).emitted = [([112], [49]), ([113], [49])] := by decide
+example : Consistent [([112], [49]), ([113], [49]), ([112], [49])] := by
+  intro x hx y hy h
+  simp at hx hy
+  rcases hx with rfl | rfl | rfl <;> rcases hy with rfl | rfl | rfl <;> simp_all
+
+end Ns
 
 /-! ### non-vacuity -/
 
